@@ -321,7 +321,9 @@ Definition s_create_class_list (D : dict) := create_class_list str_eqb str_leb (
 Definition sorted_imports (imps : list (str * str)) : list (str * str) :=
   isort (fun a b => str_leb (snd a) (snd b)) imps.
 
-(* ---- Attr.native_types = list(set(types)) ; ConverterFactory.sort_types ---- *)
+(* ---- Attr.native_types = list(dict.fromkeys(types)) ; ConverterFactory.sort_types ----
+   (since /repo 4392a4a native_types de-duplicates in DECLARED order: no set, no oracle) *)
+Definition native_types (types : list str) : list str := nub str_eqb types.
 Fixpoint assoc_prio (t : list (str * N)) (k : str) : option N :=
   match t with
   | [] => None
@@ -330,11 +332,12 @@ Fixpoint assoc_prio (t : list (str * N)) (k : str) : option N :=
 Definition prio (t : str) : N :=
   match assoc_prio type_priority t with Some p => p | None => type_priority_default end.
 Definition prio_leb (a b : str) : bool := N.leb (prio a) (prio b).
-(* `ord` = the iteration order of set(types): any duplicate-free list with the same members *)
 Definition sort_types (ord : list str) : list str :=
   if Nat.ltb (length ord) sort_types_shortcut then ord else isort prio_leb ord.
 Definition in_table (t : str) : bool := match assoc_prio type_priority t with Some _ => true | None => false end.
-(* guard: at most one type outside the priority table *)
+Definition sorted_native_types (types : list str) : list str := sort_types (native_types types).
+(* guard under which sort_types does not depend on the order of its argument:
+   at most one type outside the priority table *)
 Definition native_guard (ord : list str) : bool :=
   Nat.leb (length (filter (fun t => negb (in_table t)) ord)) 1.
 
